@@ -2,6 +2,10 @@
 namespace EinoV.Expected.C19
 /-- resolveCompletedTasks closes the copies that no successor consumes -/
 def closesSurplus : Bool := true
+/-- a stream copy replaced by a later copy for the same (successor, sender) slot is closed -/
+def closesReplaced : Bool := true
+/-- dagChannel.reportValues closes the streams handed to a skipped channel -/
+def skippedChannelClosesValues : Bool := true
 /-- updateValues closes a stream addressed to a node it is not a data predecessor of -/
 def closesNonDataValues : Bool := true
 def firstCopyExpr : String := "len(t.call.writeTo)+len(t.call.writeToBranches)*2"
